@@ -111,7 +111,8 @@ macro_rules! dbus_variant_sig_unmarshal {
 
                 $(
                 if sig == <$typ as Signature>::signature() {
-                    let v = <$typ as $crate::Unmarshal>::unmarshal(ctx)?;
+                    // the value is nested in this variant
+                    let v = ctx.in_container(1, |ctx| <$typ as $crate::Unmarshal>::unmarshal(ctx))?;
                     return Ok(Self::$name(v));
                 }
                 )+
@@ -348,7 +349,8 @@ macro_rules! dbus_variant_var_unmarshal {
                 var_sig.clear();
                 <$typ as Signature>::sig_str(&mut var_sig);
                 if sig_str == var_sig.as_ref() {
-                    let v = <$typ as $crate::Unmarshal>::unmarshal(ctx)?;
+                    // the value is nested in this variant
+                    let v = ctx.in_container(1, |ctx| <$typ as $crate::Unmarshal>::unmarshal(ctx))?;
                     return Ok(Self::$name(v));
                 }
                 )+
